@@ -17,7 +17,7 @@ import inferno
 import inferno.functional as fn
 from inferno.stats import Poisson, Normal, LogNormal
 
-from mc.common import Tally
+from mc.common import Tally, Guard
 from mc.pool import run_shards
 
 ID = "C20"
@@ -62,8 +62,18 @@ def interp_shard(tier):
                 for x, pv, nx in itertools.product(xs, brackets, brackets):
                     tally.add("evaluations")
                     T = lambda v: torch.tensor([v, v])
-                    p2, n2 = efn(T(x), T(t), T(pv), T(nx), dt, **ekw)
-                    back = ifn(p2, n2, T(t), dt, **ikw).tolist()
+                    ea = (T(x), T(t), T(pv), T(nx))
+                    g = Guard(*ea)
+                    p2, n2 = efn(*ea, dt, **ekw)
+                    if g.mutated():
+                        tally.violation(f"input-mutated:extrap:{en}", {"dt": dt, "extrap": en, "sample": x, "sample_at": t, "prev": pv, "next": nx},
+                                        "the extrapolation modified one of its argument tensors in place")
+                    ia = (p2.clone(), n2.clone(), T(t))
+                    g = Guard(*ia)
+                    back = ifn(*ia, dt, **ikw).tolist()
+                    if g.mutated():
+                        tally.violation(f"input-mutated:interp:{inn}", {"dt": dt, "interp": inn, "prev": p2.tolist(), "next": n2.tolist(), "sample_at": t},
+                                        "the interpolation modified one of its argument tensors in place")
                     if "adjust" in ekw:  # documented anchor: X(0) = f(D(0)) resp. X(dt) = f(D(dt))
                         anchor, want = (p2, ekw["adjust"](T(pv))) if en.startswith("linear_forward") else (n2, ekw["adjust"](T(nx)))
                         if anchor.tolist() != want.tolist():
